@@ -43,3 +43,9 @@ for n in selfsigned:"$SAN_OK" selfsigned_wrongname:"$SAN_WRONG"; do
 done
 rm -f *.srl
 ls
+# a self-signed certificate the way `openssl req -x509` makes it by default (CA:TRUE): never acceptable as a server certificate
+# merely because some other root was added
+openssl req -x509 -newkey rsa:2048 -nodes -keyout selfsigned_ca.key -out selfsigned_ca.pem -days $days -subj "/CN=selfsigned_ca" \
+  -addext "subjectAltName=$SAN_OK" -addext "basicConstraints=critical,CA:TRUE" 2>/dev/null
+# an impostor: presents the `good` certificate but holds another key (the harness's server signs the handshake with it)
+cp good.pem impostor.pem; cp wrongname.key impostor.key
